@@ -32,6 +32,7 @@ def inst(scn, n, tiers, prop='VF_ACCT'):
     return {
         'name': 'scn%d_n%d' % (scn, n), 'src': '../C08/hist.cpp', 'engine': 'cbmc', 'shims': ['moodycamel'],
         'repo_sources': _SRC, 'rt_defs': {'VF_HAVE_THREAD_MODEL': 1}, 'models': ['aligned_alloc'],
+        'native_extra': ['harness/C47/native_stubs.cpp'],
         'allow_externals': ['_ZN8dispenso6detail27registerFineSchedulerQuantaEv', '_ZN8dispenso6detail20allocSmallBufferImplEm', '_ZN8dispenso6detail22deallocSmallBufferImplEmPv'],
         'defs': {'VF_N': n, 'VF_SCN': scn, 'VF_MQ_CAP': 6, prop: 1},
         'cflags': ['-DDISPENSO_TUNE_STEAL_RING_SHARING=1', '-DDISPENSO_TUNE_FIXED_SPIN_ITERS=2',
